@@ -154,3 +154,110 @@ Proof.
   - pose proof (kv_stat_err_typed (fs_at m i) sub) as T. destruct (kv_stat (fs_at m i) sub) as [s' [f|e0]]; cbn [snd map_obs_err]; intros H; inversion H.
     destruct (T e0 eq_refl) as (c & ->). rewrite K. eexists; reflexivity.
 Qed.
+
+(* ---- Rename through a mount FS: a failed Rename of a non-directory is a LinkError carrying the caller's two names,
+   whichever constituent refused it ---- *)
+From HP Require Import KV.RenameErr.
+
+Lemma restore_mount_point t p : valid_path p = true -> Forall (fun x => fst x <> [] /\ fst x <> dot) t ->
+  let '(_, point, sub) := mount_point t p in restore_path point sub = p.
+Proof.
+  intros V NE. unfold mount_point.
+  destruct (mp_scan_longest t p) as [M _]. destruct (mp_scan t p [] 0) as [rp fsid]. cbn [fst snd] in *.
+  pose proof (valid_path_nonempty p V) as Pne.
+  destruct M as [M|[Hin Hm]].
+  - inversion M; subst. unfold restore_path. rewrite str_eqb_refl.
+    assert (T : trim_prefix (trim_prefix p []) [slash] = p).
+    { assert (X : trim_prefix p [] = p) by (unfold trim_prefix; rewrite has_prefix_nil; reflexivity). rewrite X.
+      unfold trim_prefix. destruct (has_prefix p [slash]) eqn:H; [|reflexivity].
+      exfalso. pose proof (valid_path_no_leading_slash p V) as NL. destruct p as [|c p']; [congruence|].
+      cbn [has_prefix] in H. apply andb_true_iff in H. destruct H as [H _]. apply N.eqb_eq in H. cbn [hd] in NL. congruence. }
+    rewrite T. destruct p; [congruence|reflexivity].
+  - rewrite Forall_forall in NE. destruct (NE _ Hin) as [N1 N2]. cbn [fst] in N1, N2.
+    destruct rp as [|r0 rp']; [congruence|]. set (rp := r0 :: rp') in *.
+    unfold matches in Hm. apply orb_true_iff in Hm. destruct Hm as [Hm|Hm].
+    + destruct (has_prefix_decompose _ _ Hm) as [rest E]. rewrite <- app_assoc in E. cbn [app] in E.
+      assert (T : trim_prefix (trim_prefix p rp) [slash] = rest).
+      { rewrite E. rewrite trim_prefix_app2. change (slash :: rest) with ([slash] ++ rest). apply trim_prefix_app2. }
+      rewrite T.
+      assert (Rne : rest <> []).
+      { intros ->. apply valid_path_spec in V. destruct V as [_ [Vd|Ve]].
+        - rewrite E in Vd. apply (f_equal (@length _)) in Vd. rewrite app_length in Vd. simpl in Vd. unfold rp in Vd. simpl in Vd. lia.
+        - rewrite E in Ve. rewrite split_app_slash in Ve. apply Forall_app in Ve. destruct Ve as [_ Ve]. inversion Ve as [|? ? X _]. discriminate. }
+      assert (Rnd : rest <> dot).
+      { intros Ed. apply valid_path_spec in V. destruct V as [_ [Vd|Ve]].
+        - rewrite E in Vd. apply (f_equal (@length _)) in Vd. rewrite app_length in Vd. simpl in Vd. unfold rp in Vd. simpl in Vd. lia.
+        - rewrite E, Ed in Ve. rewrite split_app_slash in Ve. apply Forall_app in Ve. destruct Ve as [_ Ve]. inversion Ve as [|? ? X _]. discriminate. }
+      destruct rest as [|c rest']; [congruence|]. unfold restore_path.
+      destruct (str_eqb_spec rp dot); [contradiction|]. destruct (str_eqb_spec (c :: rest') dot); [contradiction|].
+      symmetry. exact E.
+    + apply str_eqb_eq in Hm. subst p. rewrite trim_prefix_self'. unfold trim_prefix. cbn [has_prefix].
+      unfold restore_path. destruct (str_eqb_spec rp dot); [contradiction|]. rewrite str_eqb_refl. reflexivity.
+Qed.
+
+Theorem mount_rename_failure_names_the_callers_names m o n e :
+  Forall (fun x => fst x <> [] /\ fst x <> dot) (m_table m) ->
+  (forall q, (fst (fst (mount_point (m_table m) q)) < length (m_fs m))%nat) ->
+  (* the source is not a directory (a directory across two mounts is refused outright, within one mount it moves its
+     descendants one by one and may name one of them) *)
+  (forall i point sub f, mount_point (m_table m) o = (i, point, sub) ->
+     snd (get_file (fst (kv_stat (fs_at m i) sub)) sub) = inl f -> is_dir (f_mode f) = false) ->
+  snd (m_rename m o n) = VErr e -> exists c, e = LinkErr o n c.
+Proof.
+  intros NE Rg ND H. unfold m_rename in H.
+  destruct (negb (valid_path o) || negb (valid_path n)) eqn:Vs; [cbn in H; inversion H; eexists; reflexivity|].
+  apply orb_false_iff in Vs. destruct Vs as [Vo Vn]. apply negb_false_iff in Vo. apply negb_false_iff in Vn.
+  pose proof (restore_mount_point (m_table m) o Vo NE) as Ro.
+  pose proof (restore_mount_point (m_table m) n Vn NE) as Rn.
+  pose proof (Rg o) as Lo.
+  destruct (mount_point (m_table m) o) as [[oi opoint] osub] eqn:Mo.
+  destruct (mount_point (m_table m) n) as [[ni npoint] nsub] eqn:Mn. cbn [fst] in Lo.
+  destruct (kv_stat (fs_at m oi) osub) as [so1 [finfo|e1]] eqn:St; [|cbn in H; inversion H; eexists; reflexivity].
+  destruct (str_eqb o n); [cbn in H; destruct (is_dir (f_mode finfo)); inversion H; eexists; reflexivity|].
+  destruct (str_eqb_spec opoint npoint) as [Ep|_].
+  - (* within one mount: the constituent's own Rename, its names translated back *)
+    subst npoint.
+    destruct (step (fs_at (set_fs m oi so1) oi) (Rename osub nsub)) as [s2 ob] eqn:Sp. cbn [snd] in H.
+    unfold step in Sp.
+    destruct (kv_rename (rename_fuel (fs_at (set_fs m oi so1) oi)) (fs_at (set_fs m oi so1) oi) osub nsub) as [s2' e2] eqn:Kr.
+    inversion Sp; subst s2 ob; clear Sp.
+    destruct e2 as [e2|]; cbn [of_err map_obs_err] in H; [|discriminate].
+    inversion H; subst e; clear H.
+    assert (Efs : fs_at (set_fs m oi so1) oi = so1).
+    { unfold fs_at, set_fs. cbn [m_fs]. apply nth_error_nth. apply nth_error_list_set_eq. exact Lo. }
+    assert (T : exists c, e2 = LinkErr osub nsub c).
+    { unfold rename_fuel in Kr.
+      apply (kv_rename_file_err_typed (Datatypes.S (length (st_store (fs_at (set_fs m oi so1) oi)))) (fs_at (set_fs m oi so1) oi) osub nsub e2); [|rewrite Kr; reflexivity].
+      intros f Gf. apply (ND oi opoint osub f eq_refl). rewrite Efs in Gf. rewrite St. cbn [fst]. exact Gf. }
+    destruct T as (c & ->). cbn [restore_err]. rewrite Ro, Rn. eexists; reflexivity.
+  - destruct (is_dir (f_mode finfo)); [cbn in H; inversion H; eexists; reflexivity|].
+    (* the copy across two mounts: every failure is wrapped with the caller's names *)
+    repeat (first
+      [ match type of H with context [kv_openfile ?a ?b ?c ?d] => destruct (kv_openfile a b c d) as [? [?|?]] end
+      | match type of H with context [f_data ?a ?b] => destruct (f_data a b) as [[? ?] [|]] end
+      | match type of H with context [write_at ?a ?b ?c ?d] => destruct (write_at a b c d) as [[[? ?] ?] [?|]] end
+      | match type of H with context [kv_chmod ?a ?b ?c] => destruct (kv_chmod a b c) as [? [?|]] end
+      | match type of H with context [kv_remove ?a ?b] => destruct (kv_remove a b) as [? [?|]] end ];
+      cbn [snd fst negb] in H);
+    try (inversion H; eexists; reflexivity); try discriminate.
+Qed.
+
+Lemma mount_point_in_range t k : Forall (fun x => (snd x < k)%nat) t -> (0 < k)%nat ->
+  forall q, (fst (fst (mount_point t q)) < k)%nat.
+Proof.
+  intros F K q. unfold mount_point. destruct (mp_scan_longest t q) as [M _].
+  destruct (mp_scan t q [] 0) as [rp fsid]. cbn [fst snd] in *.
+  destruct M as [M|[Hin _]]; [inversion M; subst; exact K|].
+  rewrite Forall_forall in F. apply (F _ Hin).
+Qed.
+
+(* the premises hold of a composition built the usual way, and the theorem's conclusion is what the model computes there *)
+Example mount_rename_names_demo :
+  let m := fst (mstep (minit [S "a"; S "b"]) (WriteFile (S "a/f") [1;2]%N 420%N)) in
+  Forall (fun x => fst x <> [] /\ fst x <> dot) (m_table m)
+  /\ Forall (fun x => (snd x < length (m_fs m))%nat) (m_table m)
+  /\ snd (m_rename m (S "a/f") (S "b/nodir/g")) = VErr (LinkErr (S "a/f") (S "b/nodir/g") ENOENT)
+  /\ snd (m_rename m (S "a/f") (S "a/nodir/g")) = VErr (LinkErr (S "a/f") (S "a/nodir/g") ENOENT).
+Proof.
+  vm_compute. split; [repeat constructor; discriminate|]. split; [repeat constructor|]. split; reflexivity.
+Qed.
